@@ -20,3 +20,8 @@ VARIANTS = [
     M('C19', 'refactor-loop-var-renamed', [E(TC, "    for i, arg in enumerate(argv[1:], 1):", "    for idx, arg in enumerate(argv[1:], start=1):"),
                                              E(TC, "            argv[i] = '' if arg == '-' else arg", "            argv[idx] = '' if arg == '-' else arg")], kind='refactor'),
 ]
+
+VARIANTS += [
+    M('C19', 'list-mode-fast-path-bypasses-filter', E(TC, "    def loadTestsFromTestCase(self, *args, **kwargs):\n        suite = unittest.TestLoader.loadTestsFromTestCase(self, *args,", "    def loadTestsFromTestCase(self, *args, **kwargs):\n        if self.check and hasattr(args[0], '_tagged'):\n            self.print(args[0].__name__)\n            return unittest.TestSuite()\n        suite = unittest.TestLoader.loadTestsFromTestCase(self, *args,"),
+      rule='C19-LOADER', key='entry:loadTestsFromTestCase'),
+]
